@@ -1,6 +1,6 @@
 from functools import partial
 
-from . import p_hybrid, p_polygon, p_search
+from . import p_domains, p_hybrid, p_polygon, p_search
 
 REGISTRY = {
     "C01": partial(p_search.run, "C01"),
@@ -11,6 +11,7 @@ REGISTRY = {
     "C06": partial(p_hybrid.run, "C06"),
     "C07": partial(p_hybrid.run, "C07"),
     "C08": partial(p_hybrid.run, "C08"),
+    "C03": p_domains.run,
     "C16": p_polygon.run_c16,
     "C04": p_polygon.run_c04,
 }
